@@ -749,7 +749,9 @@ Definition line_class (w : nat) (l : string) : lk :=
        (andb (contains "#"%char (takeS BLANK_SPACE_CONTINUE line)) (negb c))
        (amp_nl line') (amp_data line') (line_words (rstrip line')).
 
-Record ast := mkA { a_bc : nat; a_bt : nat; a_cont : bool; a_hnc : bool; a_ne : bool; a_acc : list string }.
+Record ast := mkA { a_bc : nat; a_bt : nat; a_cont : bool; a_hnc : bool; a_ne : bool; a_acc : list string;
+                    a_top : bool;     (* the top-level file (read_data's recursion argument is False) *)
+                    a_done : bool     (* ... whose third block has ended: nothing more is read *) }.
 
 Definition out := (nat * list string)%type.
 
@@ -757,18 +759,21 @@ Definition aflush (bt : nat) (ne : bool) (acc : list string) : list out := if ne
 
 (* fx = false: the current code; fx = true: with repair C11-1 *)
 Definition astep (fx : bool) (k : lk) (s : ast) : list out * option ast :=
+  if a_done s then ([], Some s) else
   if k_blank k then
     let bc' := S (a_bc s) in
     (aflush (a_bt s) (a_ne s) (a_acc s),
-     Some (mkA bc' (if Nat.ltb bc' 3 then bc' else a_bt s) (a_cont s) false false []))
+     Some (mkA bc' (if Nat.ltb bc' 3 then bc' else a_bt s) (a_cont s) false false []
+               (a_top s) (andb (Nat.leb 3 bc') (a_top s))))
   else
     let newinp := andb (k_start k) (andb (negb (a_cont s)) (andb (negb (k_com k)) (andb (a_hnc s) (a_ne s)))) in
     let pre := if newinp then aflush (a_bt s) (a_ne s) (a_acc s) else [] in
     let acc1 := if newinp then [] else a_acc s in
     if k_hash k then (pre, None)
     else (pre, Some (mkA (a_bc s) (a_bt s)
-                         (if fx then (if k_com k then a_cont s else k_ampf k) else k_ampc k)
-                         (orb (a_hnc s) (negb (k_com k))) true (acc1 ++ k_words k)%list)).
+                         (if fx then (if andb (k_com k) (k_start k) then a_cont s else k_ampf k) else k_ampc k)
+                         (orb (a_hnc s) (negb (k_com k))) true (acc1 ++ k_words k)%list
+                         (a_top s) false)).
 
 Fixpoint arun (fx : bool) (ks : list lk) (s : ast) : list out * option rd_err :=
   match ks with
@@ -809,9 +814,10 @@ Qed.
 (* every reachable state: an empty accumulator has seen no data line *)
 Definition inv (s : ast) : Prop := a_ne s = false -> a_hnc s = false.
 
-Lemma astep_inv : forall fx k s o s1, astep fx k s = (o, Some s1) -> inv s1.
+Lemma astep_inv : forall fx k s o s1, inv s -> astep fx k s = (o, Some s1) -> inv s1.
 Proof.
-  intros fx k s o s1 H. unfold astep in H.
+  intros fx k s o s1 Hi H. unfold astep in H.
+  destruct (a_done s); [inversion H; subst; auto|].
   destruct (k_blank k).
   - inversion H. subst. intro. reflexivity.
   - destruct (k_hash k); inversion H. subst. intro Hc. discriminate Hc.
@@ -838,6 +844,13 @@ Proof.
   eapply asteps_inv; eauto.
 Qed.
 
+Lemma arun_done : forall fx ks s, a_done s = true ->
+  arun fx ks s = (aflush (a_bt s) (a_ne s) (a_acc s), None).
+Proof.
+  induction ks; intros s H; auto.
+  cbn [arun]. unfold astep. rewrite H. rewrite IHks by auto. reflexivity.
+Qed.
+
 (* ---- rd_loop and rd_loop_fix are this transducer *)
 Lemma nonempty_app1 : forall (A : Type) (l : list A) x, nonempty (l ++ [x])%list = true.
 Proof. destruct l; reflexivity. Qed.
@@ -851,18 +864,22 @@ Proof. intros. unfold logical. apply map_app. Qed.
 
 Definition lift (r : list input * option rd_err) : list out * option rd_err := (logical (fst r), snd r).
 
-Lemma rd_loop_sim : forall w ls lineno bc bt cont hnc raw,
-  lift (rd_loop w ls lineno bc bt cont hnc raw)
-  = arun false (map (line_class w) ls) (mkA bc bt cont hnc (nonempty raw) (flat_map line_words raw)).
+Lemma rd_loop_sim : forall w rc ls lineno bc bt cont hnc raw,
+  lift (rd_loop w rc ls lineno bc bt cont hnc raw)
+  = arun false (map (line_class w) ls)
+         (mkA bc bt cont hnc (nonempty raw) (flat_map line_words raw) (negb rc) false).
 Proof.
   induction ls; intros lineno bc bt cont hnc raw.
   - unfold lift. simpl. rewrite logical_flush. reflexivity.
   - cbn [map arun rd_loop]. unfold astep. cbn [line_class k_blank k_com k_start k_hash k_ampc k_ampf k_words
-      a_bc a_bt a_cont a_hnc a_ne a_acc].
+      a_bc a_bt a_cont a_hnc a_ne a_acc a_top a_done].
     destruct (all_space (expandtabs TABSIZE a)) eqn:Eb.
-    + specialize (IHls (S lineno) (S bc) (if Nat.ltb (S bc) 3 then S bc else bt) cont false []).
+    + destruct (andb (Nat.leb 3 (S bc)) (negb rc)) eqn:Estop.
+      { rewrite arun_done by reflexivity. cbn [a_bt a_ne a_acc aflush]. unfold lift. cbn [fst snd].
+        rewrite logical_flush, app_nil_r. reflexivity. }
+      specialize (IHls (S lineno) (S bc) (if Nat.ltb (S bc) 3 then S bc else bt) cont false []).
       cbn [nonempty flat_map] in IHls.
-      destruct (rd_loop w ls (S lineno) (S bc) (if Nat.ltb (S bc) 3 then S bc else bt) cont false []) as [o e] eqn:E.
+      destruct (rd_loop w rc ls (S lineno) (S bc) (if Nat.ltb (S bc) 3 then S bc else bt) cont false []) as [o e] eqn:E.
       unfold lift in *. cbn [fst snd] in *. rewrite <- IHls.
       rewrite logical_app, logical_flush. reflexivity.
     + set (c := is_comment (expandtabs TABSIZE a)).
@@ -874,7 +891,7 @@ Proof.
         specialize (IHls (S lineno) bc bt (amp_nl line') (orb hnc (negb c))
                          ((if newinp then [] else raw) ++ [rstrip line'])%list).
         unfold amp_nl in IHls. fold line' in IHls.
-        destruct (rd_loop w ls (S lineno) bc bt
+        destruct (rd_loop w rc ls (S lineno) bc bt
                     (ends_with (String sp (String "&"%char (String nl ""))) line') (orb hnc (negb c))
                     ((if newinp then [] else raw) ++ [rstrip line'])%list) as [o e] eqn:E.
         unfold lift in *. cbn [fst snd] in *.
@@ -885,18 +902,22 @@ Proof.
         rewrite logical_app. destruct newinp; cbn [logical map]; rewrite ?logical_flush; reflexivity.
 Qed.
 
-Lemma rd_loop_fix_sim : forall w ls lineno bc bt cont hnc raw,
-  lift (rd_loop_fix w ls lineno bc bt cont hnc raw)
-  = arun true (map (line_class w) ls) (mkA bc bt cont hnc (nonempty raw) (flat_map line_words raw)).
+Lemma rd_loop_fix_sim : forall w rc ls lineno bc bt cont hnc raw,
+  lift (rd_loop_fix w rc ls lineno bc bt cont hnc raw)
+  = arun true (map (line_class w) ls)
+         (mkA bc bt cont hnc (nonempty raw) (flat_map line_words raw) (negb rc) false).
 Proof.
   induction ls; intros lineno bc bt cont hnc raw.
   - unfold lift. simpl. rewrite logical_flush. reflexivity.
   - cbn [map arun rd_loop_fix]. unfold astep. cbn [line_class k_blank k_com k_start k_hash k_ampc k_ampf k_words
-      a_bc a_bt a_cont a_hnc a_ne a_acc].
+      a_bc a_bt a_cont a_hnc a_ne a_acc a_top a_done].
     destruct (all_space (expandtabs TABSIZE a)) eqn:Eb.
-    + specialize (IHls (S lineno) (S bc) (if Nat.ltb (S bc) 3 then S bc else bt) cont false []).
+    + destruct (andb (Nat.leb 3 (S bc)) (negb rc)) eqn:Estop.
+      { rewrite arun_done by reflexivity. cbn [a_bt a_ne a_acc aflush]. unfold lift. cbn [fst snd].
+        rewrite logical_flush, app_nil_r. reflexivity. }
+      specialize (IHls (S lineno) (S bc) (if Nat.ltb (S bc) 3 then S bc else bt) cont false []).
       cbn [nonempty flat_map] in IHls.
-      destruct (rd_loop_fix w ls (S lineno) (S bc) (if Nat.ltb (S bc) 3 then S bc else bt) cont false []) as [o e] eqn:E.
+      destruct (rd_loop_fix w rc ls (S lineno) (S bc) (if Nat.ltb (S bc) 3 then S bc else bt) cont false []) as [o e] eqn:E.
       unfold lift in *. cbn [fst snd] in *. rewrite <- IHls.
       rewrite logical_app, logical_flush. reflexivity.
     + set (c := is_comment (expandtabs TABSIZE a)).
@@ -905,9 +926,10 @@ Proof.
       destruct (andb (contains "#"%char (takeS BLANK_SPACE_CONTINUE (expandtabs TABSIZE a))) (negb c)) eqn:Eh.
       * unfold lift. cbn [fst snd]. destruct newinp; cbn [logical map]; rewrite ?logical_flush; reflexivity.
       * set (line' := takeS w (expandtabs TABSIZE a)).
-        specialize (IHls (S lineno) bc bt (if c then cont else amp_data line') (orb hnc (negb c))
+        set (st := negb (all_space (takeS BLANK_SPACE_CONTINUE (expandtabs TABSIZE a)))).
+        specialize (IHls (S lineno) bc bt (if andb c st then cont else amp_data line') (orb hnc (negb c))
                          ((if newinp then [] else raw) ++ [rstrip line'])%list).
-        destruct (rd_loop_fix w ls (S lineno) bc bt (if c then cont else amp_data line') (orb hnc (negb c))
+        destruct (rd_loop_fix w rc ls (S lineno) bc bt (if andb c st then cont else amp_data line') (orb hnc (negb c))
                     ((if newinp then [] else raw) ++ [rstrip line'])%list) as [o e] eqn:E.
         unfold lift in *. cbn [fst snd] in *.
         rewrite nonempty_app1, flat_map_app in IHls. cbn [flat_map] in IHls. rewrite app_nil_r in IHls.
@@ -1036,11 +1058,22 @@ Proof.
   rewrite andb_true_r. auto.
 Qed.
 
-Lemma pk_comment_line : forall c, spec_comment c = true ->
-  k_blank (pk c) = false /\ k_com (pk c) = true /\ k_hash (pk c) = false /\ k_words (pk c) = [].
+Lemma spec_comment_start : forall x, spec_comment x = true -> all_blank (takeS 5 x) = false.
 Proof.
-  intros c H. unfold pk. cbn [k_blank k_com k_hash k_words]. rewrite H.
-  rewrite (spec_comment_not_blank c H). cbn [orb negb]. rewrite andb_false_r. auto.
+  intros x H. destruct (plain_shape x) as [[n E]|[n [a [r [E Ha]]]]]; subst x.
+  - unfold spec_comment in H. rewrite spec_comment_from_blank in H. discriminate.
+  - unfold spec_comment in H. rewrite spec_comment_from_shape in H by auto.
+    apply andb_true_iff in H. destruct H as [Hn _]. apply Nat.leb_le in Hn.
+    rewrite takeS_blanks_le by lia. rewrite all_blank_blanks.
+    destruct (5 - n) eqn:E; [lia|]. simpl. rewrite Ha. reflexivity.
+Qed.
+
+Lemma pk_comment_line : forall c, spec_comment c = true ->
+  k_blank (pk c) = false /\ k_com (pk c) = true /\ k_hash (pk c) = false /\ k_words (pk c) = [] /\
+  k_start (pk c) = true.
+Proof.
+  intros c H. unfold pk. cbn [k_blank k_com k_hash k_words k_start]. rewrite H.
+  rewrite (spec_comment_not_blank c H), (spec_comment_start c H). cbn [orb negb]. rewrite andb_false_r. auto.
 Qed.
 
 (* ---- segments of classes that behave alike *)
@@ -1058,8 +1091,9 @@ Lemma seg_amp : forall ka ka' kb kb',
   k_words kb' = k_words kb -> k_ampf kb' = k_ampf kb ->
   forall s, asteps true [ka; kb] s = asteps true [ka'; kb'] s.
 Proof.
-  intros ka ka' kb kb' A1 A2 A3 B1 B2 B3 B4 B5 B6 C1 C2 C3 C4 D1 D2 D3 D4 D5 [bc bt cont hnc ne acc].
-  unfold asteps, astep. cbn [a_bc a_bt a_cont a_hnc a_ne a_acc].
+  intros ka ka' kb kb' A1 A2 A3 B1 B2 B3 B4 B5 B6 C1 C2 C3 C4 D1 D2 D3 D4 D5 [bc bt cont hnc ne acc top dn].
+  destruct dn; [reflexivity|].
+  unfold asteps, astep. cbn [a_bc a_bt a_cont a_hnc a_ne a_acc a_top a_done].
   rewrite A1, A2, A3, B1, B2, B3, B4, B5, B6, C1, C2, C3, C4, D1, D2, D3, D4, D5.
   cbn [andb orb negb]. rewrite !andb_false_r.
   destruct (k_start ka), cont, hnc, ne; cbn [andb orb negb]; reflexivity.
@@ -1081,28 +1115,30 @@ Lemma seg_blank : forall k k', k_blank k = true -> k_blank k' = true ->
 Proof. intros k k' H1 H2 s. unfold asteps, astep. rewrite H1, H2. reflexivity. Qed.
 
 Definition comment_class (k : lk) : Prop :=
-  k_blank k = false /\ k_com k = true /\ k_hash k = false /\ k_words k = [].
+  k_blank k = false /\ k_com k = true /\ k_hash k = false /\ k_words k = [] /\ k_start k = true.
 
-Lemma step_comment_noop : forall kc s, comment_class kc -> a_ne s = true ->
+Lemma step_comment_noop : forall kc s, comment_class kc -> a_done s = true \/ a_ne s = true ->
   astep true kc s = ([], Some s).
 Proof.
-  intros kc [bc bt cont hnc ne acc] (H1 & H2 & H3 & H4) Hne. cbn [a_ne] in Hne. subst ne.
-  unfold astep. cbn [a_bc a_bt a_cont a_hnc a_ne a_acc]. rewrite H1, H2, H3, H4.
+  intros kc [bc bt cont hnc ne acc top dn] (H1 & H2 & H3 & H4 & H5) Hne. cbn [a_ne a_done] in Hne.
+  destruct dn; [reflexivity|]. destruct Hne as [Hne|Hne]; [discriminate|]. subst ne.
+  unfold astep. cbn [a_bc a_bt a_cont a_hnc a_ne a_acc a_top a_done]. rewrite H1, H2, H3, H4, H5.
   cbn [negb andb]. rewrite !andb_false_r. rewrite orb_false_r, app_nil_r. reflexivity.
 Qed.
 
-Lemma step_nonblank_ne : forall fx k s o s1, k_blank k = false -> astep fx k s = (o, Some s1) -> a_ne s1 = true.
+Lemma step_nonblank_ne : forall fx k s o s1, k_blank k = false -> astep fx k s = (o, Some s1) ->
+  a_done s1 = true \/ a_ne s1 = true.
 Proof.
-  intros fx k s o s1 Hb H. unfold astep in H. rewrite Hb in H.
-  destruct (k_hash k); inversion H. reflexivity.
+  intros fx k s o s1 Hb H. unfold astep in H. destruct (a_done s) eqn:Ed.
+  - inversion H. subst. auto.
+  - rewrite Hb in H. destruct (k_hash k); inversion H. auto.
 Qed.
 
 Lemma seg_comment_text : forall kc kc', comment_class kc -> comment_class kc' ->
   forall s, asteps true [kc] s = asteps true [kc'] s.
 Proof.
-  intros kc kc' (H1 & H2 & H3 & H4) (G1 & G2 & G3 & G4) s.
-  unfold asteps, astep. rewrite H1, H2, H3, H4, G1, G2, G3, G4. cbn [negb andb]. rewrite !andb_false_r.
-  reflexivity.
+  intros kc kc' (H1 & H2 & H3 & H4 & H5) (G1 & G2 & G3 & G4 & G5) s.
+  unfold asteps, astep. rewrite H1, H2, H3, H4, H5, G1, G2, G3, G4, G5. cbn [negb andb]. reflexivity.
 Qed.
 
 Lemma seg_comment_after : forall kx kc, k_blank kx = false -> comment_class kc ->
@@ -1117,13 +1153,16 @@ Qed.
 Lemma seg_comment_before : forall ky kc, k_blank ky = false -> comment_class kc ->
   forall s, inv s -> asteps true [kc; ky] s = asteps true [ky] s.
 Proof.
-  intros ky kc Hy Hc s Hi. destruct (a_ne s) eqn:Hne.
+  intros ky kc Hy Hc s Hi. destruct (a_done s) eqn:Hdn.
+  { cbn [asteps]. rewrite step_comment_noop by auto. cbn [app].
+    destruct (astep true ky s) as [o [s1|]]; reflexivity. }
+  destruct (a_ne s) eqn:Hne.
   - cbn [asteps]. rewrite step_comment_noop by auto. cbn [app].
     destruct (astep true ky s) as [o [s1|]]; reflexivity.
-  - specialize (Hi Hne). destruct s as [bc bt cont hnc ne acc]. cbn [a_ne a_hnc] in *. subst ne hnc.
-    destruct Hc as (H1 & H2 & H3 & H4).
-    unfold asteps, astep. cbn [a_bc a_bt a_cont a_hnc a_ne a_acc].
-    rewrite H1, H2, H3, H4, Hy. cbn [negb andb orb]. rewrite !andb_false_r. cbn [app].
+  - specialize (Hi Hne). destruct s as [bc bt cont hnc ne acc top dn]. cbn [a_ne a_hnc a_done] in *. subst ne hnc dn.
+    destruct Hc as (H1 & H2 & H3 & H4 & H5).
+    unfold asteps, astep. cbn [a_bc a_bt a_cont a_hnc a_ne a_acc a_top a_done].
+    rewrite H1, H2, H3, H4, H5, Hy. cbn [negb andb orb]. rewrite !andb_false_r. cbn [app].
     rewrite app_nil_r. destruct (k_hash ky); reflexivity.
 Qed.
 
@@ -1439,7 +1478,7 @@ Proof.
     apply message_loop_front; auto.
 Qed.
 
-Definition s0 : ast := mkA 0 0 false false false [].
+Definition s0 : ast := mkA 0 0 false false false [] true false.
 
 Lemma inv_s0 : inv s0.
 Proof. intro. reflexivity. Qed.
@@ -1450,9 +1489,9 @@ Lemma read_lines_fix_run : forall w f,
   let r := arun true (map (line_class w) (f_rest fm)) s0 in (f_title fm, fst r, snd r).
 Proof.
   intros w f. unfold read_lines_fix, read_data_fix_from. cbv zeta.
-  pose proof (rd_loop_fix_sim w (f_rest (read_front_matters (map clean_line f))) 0 0 0 false false []) as H.
-  cbn [nonempty flat_map] in H. fold s0 in H. rewrite <- H.
-  destruct (rd_loop_fix w _ 0 0 0 false false []) as [ins e]. reflexivity.
+  pose proof (rd_loop_fix_sim w false (f_rest (read_front_matters (map clean_line f))) 0 0 0 false false []) as H.
+  cbn [nonempty flat_map negb] in H. fold s0 in H. rewrite <- H.
+  destruct (rd_loop_fix w false _ 0 0 0 false false []) as [ins e]. reflexivity.
 Qed.
 
 Lemma read_lines_run : forall w f,
@@ -1461,9 +1500,9 @@ Lemma read_lines_run : forall w f,
   let r := arun false (map (line_class w) (f_rest fm)) s0 in (f_title fm, fst r, snd r).
 Proof.
   intros w f. unfold read_lines, read_data_from. cbv zeta.
-  pose proof (rd_loop_sim w (f_rest (read_front_matters (map clean_line f))) 0 0 0 false false []) as H.
-  cbn [nonempty flat_map] in H. fold s0 in H. rewrite <- H.
-  destruct (rd_loop w _ 0 0 0 false false []) as [ins e]. reflexivity.
+  pose proof (rd_loop_sim w false (f_rest (read_front_matters (map clean_line f))) 0 0 0 false false []) as H.
+  cbn [nonempty flat_map negb] in H. fold s0 in H. rewrite <- H.
+  destruct (rd_loop w false _ 0 0 0 false false []) as [ins e]. reflexivity.
 Qed.
 
 Lemma read_lines_fix_front : forall w fr ti d, front fr ti ->
@@ -1513,25 +1552,27 @@ Proof.
 Qed.
 
 (* ================================================================== J  the current code *)
-Lemma tidy_agree : forall w ls cont bc bt hnc ne acc,
+Lemma tidy_agree : forall w ls cont bc bt hnc ne acc top dn,
   amp_tidy_from w cont ls = true ->
-  arun false (map (line_class w) ls) (mkA bc bt cont hnc ne acc)
-  = arun true (map (line_class w) ls) (mkA bc bt cont hnc ne acc).
+  arun false (map (line_class w) ls) (mkA bc bt cont hnc ne acc top dn)
+  = arun true (map (line_class w) ls) (mkA bc bt cont hnc ne acc top dn).
 Proof.
-  induction ls; intros cont bc bt hnc ne acc H; auto.
+  induction ls; intros cont bc bt hnc ne acc top dn H; auto.
+  destruct dn; [rewrite !arun_done by reflexivity; reflexivity|].
   cbn [amp_tidy_from] in H. cbn [map arun]. unfold astep, line_class.
-  cbn [k_blank k_com k_start k_hash k_ampc k_ampf k_words a_bc a_bt a_cont a_hnc a_ne a_acc].
+  cbn [k_blank k_com k_start k_hash k_ampc k_ampf k_words a_bc a_bt a_cont a_hnc a_ne a_acc a_top a_done].
   destruct (all_space (expandtabs TABSIZE a)) eqn:Eb.
   - apply andb_true_iff in H. destruct H as [Hc H]. apply negb_true_iff in Hc. subst cont.
     rewrite (IHls false) by auto. reflexivity.
   - destruct (andb (contains "#"%char (takeS BLANK_SPACE_CONTINUE (expandtabs TABSIZE a)))
                    (negb (is_comment (expandtabs TABSIZE a)))) eqn:Eh; auto.
-    destruct (is_comment (expandtabs TABSIZE a)) eqn:Ec.
+    destruct (andb (is_comment (expandtabs TABSIZE a))
+                   (negb (all_space (takeS BLANK_SPACE_CONTINUE (expandtabs TABSIZE a))))) eqn:Ec.
     + apply andb_true_iff in H. destruct H as [Hc H]. apply andb_true_iff in H. destruct H as [Hn H].
       apply negb_true_iff in Hc. apply negb_true_iff in Hn. subst cont. rewrite Hn.
       rewrite (IHls false) by auto. reflexivity.
     + apply andb_true_iff in H. destruct H as [He H]. apply eqb_prop in He. rewrite He.
-      rewrite (IHls _ _ _ _ _ _ H). reflexivity.
+      rewrite (IHls _ _ _ _ _ _ _ _ H). reflexivity.
 Qed.
 
 Theorem tidy_reads_alike : forall w f, amp_tidy w f = true -> read_lines w f = read_lines_fix w f.
